@@ -4,7 +4,7 @@ from . import world2
 CLASSES = {"C15": ("emg", "fpcal", "fpdata"), "C16": ("data3d", "ft", "emg"),
            "C20": world2.ALL}
 BAD_KINDS = ["len+1", "len-1", "len+2", "len+7", "len-99", "shape:2d", "reassign", "kind:str", "kind:none", "kind:int", "kind:array",
-             "kind:other_item", "kind:sibling_track", "kind:sibling_track2", "kind:same_block", "kind:other_block", "twin1", "twin1"]
+             "kind:other_item", "kind:sibling_track", "kind:sibling_track2", "kind:same_block", "kind:other_block", "kind:lookalike", "twin1", "twin1"]
 
 
 def gen_run(rng, prop, index, tier):
@@ -61,8 +61,8 @@ def gen_run(rng, prop, index, tier):
                 ch = None if q < 0.5 else ("taken" if q < 0.62 else rng.choice((rng.randint(0, 12), rng.randint(0, 300))))
                 if cls == "fpdata" and isinstance(ch, int) and rng.random() < 0.3:
                     ch = rng.choice((32767, 32768, 40000 + ch, 65535, 65534))  # this block's map is unsigned
-                elif cls in ("emg", "fpcal") and isinstance(ch, int) and rng.random() < 0.2:
-                    ch = rng.choice((32767, 32766, 32000 + ch))  # the top of a signed 16 bit map
+                elif cls in ("emg", "fpcal") and isinstance(ch, int) and rng.random() < 0.25:
+                    ch = rng.choice((32767, 32766, 32000 + ch, -1, -1 - ch, -32768))  # the ends of a signed 16 bit map
             op = {"op": "add", "a": a, "id": ids(1)[0], "ch": ch, "k": rng.randint(0, 9)}
             q = rng.random()
             if q < 0.12:
@@ -106,7 +106,14 @@ def gen_run(rng, prop, index, tier):
                     chs[-1] = chs[0]  # a channel repeated inside the list
                 elif q > 0.75:
                     chs[rng.randrange(k)] = rng.randint(0, 3)  # probably taken already
-                ops.append({"op": "bulk", "a": a, "how": "add", "ids": ids(k), "chs": chs})
+                op = {"op": "bulk", "a": a, "how": "add", "ids": ids(k), "chs": chs}
+                if chs is not None and 0.45 <= q <= 0.75:
+                    r2 = rng.random()
+                    if r2 < 0.2:
+                        op["mismatch"] = rng.choice((-1, 1))
+                    elif r2 < 0.45:
+                        op["reuse"] = True
+                ops.append(op)
             else:
                 ops.append({"op": "bulk", "a": a, "how": "remove", "ks": [rng.randint(0, 9) for _ in range(rng.randint(1, 2))],
                             "by": rng.choice(("index", "object"))})
